@@ -656,3 +656,156 @@ Proof.
       apply (outside_same_intro h h' sw PW ws _ QW HPW Hlw) with (3 := HAw'); [|exact HAw].
       rewrite app_length, repeat_length. lia.
 Qed.
+
+(* ---- the statements about GtEq *)
+
+Lemma run_to_unique : forall fe g args h o fuel o',
+  run_to fe g args h o -> run fe fuel g args h = o' -> o' <> OFuel -> o' = o.
+Proof.
+  intros fe g args h o fuel o' H H' N. apply (run_to_det fe g args h o' o); [|exact H].
+  exists fuel. split; assumption.
+Qed.
+
+Lemma slice_ok_lens : forall h h' s, length h' = length h ->
+  (forall a, length (arr_of h' a) = length (arr_of h a)) -> slice_ok h s -> slice_ok h' s.
+Proof. intros h h' s H1 H2. apply slice_ok_ext; [exact H1|apply H2]. Qed.
+
+(* everything that is true of a call of GtEq that does not panic, weights nil or non-empty *)
+Lemma GtEq_total : forall h vl vw ls ws n,
+  int_slice h vl ls -> int_slice h vw ws -> disjoint_vals vl vw ->
+  (vw = VNil \/ (ws <> [] /\ length ls = length ws)) ->
+  exists v h',
+    run_to go_funs "GtEq" [vl; vw; VInt n] h (OReturn v h') /\
+    gopb_of_rval (readback h' v) = Some (gt_eq ls ws n) /\
+    length h' = length h /\
+    (forall a, (forall s, vl = VSl s -> a <> s_arr s) -> (forall s, vw = VSl s -> a <> s_arr s) ->
+               arr_of h' a = arr_of h a) /\
+    (forall a, length (arr_of h' a) = length (arr_of h a)) /\
+    (forall s, vl = VSl s ->
+       sl_read h' s = g_lits (gt_eq ls ws n) ++
+                      repeat (last ls 0) (length ls - length (g_lits (gt_eq ls ws n))) /\
+       outside_same h h' s) /\
+    (forall s, vw = VSl s -> exists wl, g_ws (gt_eq ls ws n) = Some wl /\
+       sl_read h' s = wl ++ repeat (last ws 0) (length ws - length wl) /\
+       outside_same h h' s).
+Proof.
+  intros h vl vw ls ws n Hl Hw Hdis [->|(Hws & Hlen)].
+  - (* nil weights: nothing happens *)
+    apply int_slice_nil in Hw. subst ws.
+    exists (VStruct [vl; VNil; VInt n]), h.
+    split; [enter; apply (runs_exec go_funs 5); [reflexivity|discriminate]|].
+    split; [cbn [readback map gopb_of_rval gt_eq]; rewrite (int_slice_rl _ _ _ Hl); reflexivity|].
+    split; [reflexivity|]. split; [reflexivity|]. split; [reflexivity|]. split.
+    + intros s ->. apply int_slice_sl in Hl. destruct Hl as (Hok & Hrd).
+      cbn [gt_eq g_lits]. rewrite Nat.sub_diag. cbn [repeat]. rewrite app_nil_r.
+      split; [exact Hrd|]. split; reflexivity.
+    + intros s Hs. discriminate.
+  - destruct Hw as [(-> & ->)|(sw & -> & Hokw & Hrdw)]; [congruence|].
+    destruct Hl as [(-> & ->)|(sl & -> & Hokl & Hrdl)].
+    { destruct ws; [congruence|discriminate]. }
+    cbn [disjoint_vals] in Hdis. subst ls ws.
+    destruct (gt_eq_loop (sl_read h sl) (sl_read h sw) n) as [[L W] nf] eqn:HL.
+    assert (Hg : gt_eq (sl_read h sl) (sl_read h sw) n = GoPB L (Some W) nf) by (rewrite gt_eq_unfold by exact Hws; rewrite HL; reflexivity).
+    rewrite Hg. cbn [g_lits g_ws].
+    pose proof (length_sl_read h sl Hokl) as Hll. pose proof (length_sl_read h sw Hokw) as Hlw.
+    destruct (GtEq_run h sl sw n L W nf Hokl Hokw Hdis Hws Hlen HL)
+      as (h' & Hrun & Hh' & Hfr & Hlens & Hrl & Hrw & HLW & HLl & Hol & How).
+    eexists. exists h'. split; [exact Hrun|].
+    split.
+    { cbn [readback map gopb_of_rval rl].
+      rewrite (sl_read_shorter h' (s_arr sl) (s_off sl) (s_len sl) (s_cap sl)) by lia.
+      rewrite (sl_read_shorter h' (s_arr sw) (s_off sw) (s_len sw) (s_cap sw)) by lia.
+      replace (Slice (s_arr sl) (s_off sl) (s_len sl) (s_cap sl)) with sl by (destruct sl; reflexivity).
+      replace (Slice (s_arr sw) (s_off sw) (s_len sw) (s_cap sw)) with sw by (destruct sw; reflexivity).
+      rewrite Hrl, Hrw. rewrite !firstn_mid by reflexivity. reflexivity. }
+    split; [exact Hh'|]. split.
+    { intros a H1 H2. apply Hfr; [apply (H1 sl eq_refl)|apply (H2 sw eq_refl)]. }
+    split; [exact Hlens|]. split.
+    + intros s Hs. inversion Hs. subst s. rewrite Hll. split; [exact Hrl|exact Hol].
+    + intros s Hs. inversion Hs. subst s. exists W. rewrite Hlw.
+      split; [reflexivity|split; [exact Hrw|exact How]].
+Qed.
+
+Theorem GtEq_refines : forall h vl vw ls ws n,
+  int_slice h vl ls -> int_slice h vw ws -> disjoint_vals vl vw ->
+  (vw = VNil \/ (ws <> [] /\ length ls = length ws)) ->
+  exists fuel v h',
+    run go_funs fuel "GtEq" [vl; vw; VInt n] h = OReturn v h' /\
+    gopb_of_rval (readback h' v) = Some (gt_eq ls ws n) /\
+    length h' = length h /\
+    (forall a, (forall s, vl = VSl s -> a <> s_arr s) -> (forall s, vw = VSl s -> a <> s_arr s) ->
+               arr_of h' a = arr_of h a).
+Proof.
+  intros h vl vw ls ws n Hl Hw Hdis Hc.
+  destruct (GtEq_total h vl vw ls ws n Hl Hw Hdis Hc) as (v & h' & Hrun & Hg & Hh' & Hfr & _).
+  destruct (run_to_fuel _ _ _ _ _ Hrun) as (f & Hf). exists f, v, h'. repeat split; assumption.
+Qed.
+
+(* no amount of fuel gives another result *)
+Theorem GtEq_deterministic : forall h vl vw ls ws n fuel o,
+  int_slice h vl ls -> int_slice h vw ws -> disjoint_vals vl vw ->
+  (vw = VNil \/ (ws <> [] /\ length ls = length ws)) ->
+  run go_funs fuel "GtEq" [vl; vw; VInt n] h = o -> o <> OFuel ->
+  exists v h', o = OReturn v h' /\ gopb_of_rval (readback h' v) = Some (gt_eq ls ws n) /\
+               length h' = length h.
+Proof.
+  intros h vl vw ls ws n fuel o Hl Hw Hdis Hc Ho N.
+  destruct (GtEq_total h vl vw ls ws n Hl Hw Hdis Hc) as (v & h' & Hrun & Hg & Hh' & _).
+  exists v, h'. split; [|split; assumption]. eapply run_to_unique; eassumption.
+Qed.
+
+(* what the caller's two slices hold afterwards: the result, then as many copies
+   of the last input element as pairs were deleted; the rest of the two arrays
+   is as before *)
+Theorem GtEq_caller_after : forall h sl sw ls ws n,
+  int_slice h (VSl sl) ls -> int_slice h (VSl sw) ws -> s_arr sl <> s_arr sw ->
+  ws <> [] -> length ls = length ws ->
+  exists fuel v h' wl,
+    run go_funs fuel "GtEq" [VSl sl; VSl sw; VInt n] h = OReturn v h' /\
+    g_ws (gt_eq ls ws n) = Some wl /\
+    sl_read h' sl = g_lits (gt_eq ls ws n) ++ repeat (last ls 0) (length ls - length (g_lits (gt_eq ls ws n))) /\
+    sl_read h' sw = wl ++ repeat (last ws 0) (length ws - length wl) /\
+    outside_same h h' sl /\ outside_same h h' sw.
+Proof.
+  intros h sl sw ls ws n Hl Hw Hdis Hws Hlen.
+  destruct (GtEq_total h (VSl sl) (VSl sw) ls ws n Hl Hw Hdis (or_intror (conj Hws Hlen)))
+    as (v & h' & Hrun & Hg & Hh' & Hfr & Hlens & Hcl & Hcw).
+  destruct (run_to_fuel _ _ _ _ _ Hrun) as (f & Hf).
+  destruct (Hcl sl eq_refl) as (A1 & A2). destruct (Hcw sw eq_refl) as (wl & B1 & B2 & B3).
+  exists f, v, h', wl.
+  split; [exact Hf|split; [exact B1|split; [exact A1|split; [exact B2|split; [exact A2|exact B3]]]]].
+Qed.
+
+(* weights non-nil but of length 0: the code returns its arguments as they are,
+   Weights a non-nil empty slice (the model [gt_eq _ [] _] says nil) *)
+Theorem GtEq_empty_weights_observation : forall h vl sw n, s_len sw = O ->
+  exists fuel, run go_funs fuel "GtEq" [vl; VSl sw; VInt n] h
+               = OReturn (VStruct [vl; VSl sw; VInt n]) h.
+Proof.
+  intros h vl [a o len c] n H. cbn [s_len] in H. subst len.
+  apply run_to_fuel. enter. apply (runs_exec go_funs 5); [reflexivity|discriminate].
+Qed.
+
+Lemma GtEq_panic_run : forall h vl vw ls ws n,
+  int_slice h vl ls -> int_slice h vw ws -> ws <> [] -> length ls <> length ws ->
+  run_to go_funs "GtEq" [vl; vw; VInt n] h OPanic.
+Proof.
+  intros h vl vw ls ws n Hl Hw Hws Hlen.
+  destruct Hw as [(-> & ->)|(sw & -> & Hokw & Hrdw)]; [congruence|].
+  pose proof (length_sl_read h sw Hokw) as Hlw. rewrite Hrdw in Hlw.
+  assert (Hw0 : s_len sw <> O) by (destruct ws; [congruence|cbn [length] in Hlw; lia]).
+  enter. apply runs_seq_abrupt; [|exact I].
+  destruct Hl as [(-> & ->)|(sl & -> & Hokl & Hrdl)].
+  - apply (runs_exec go_funs 2); [|discriminate]. gocbn.
+    destruct (Z.of_nat (s_len sw) =? 0) eqn:E; [lia|]. cbn [negb].
+    destruct (0 =? Z.of_nat (s_len sw)) eqn:E2; [lia|]. reflexivity.
+  - pose proof (length_sl_read h sl Hokl) as Hll. rewrite Hrdl in Hll.
+    apply (runs_exec go_funs 2); [|discriminate]. gocbn.
+    destruct (Z.of_nat (s_len sw) =? 0) eqn:E; [lia|]. cbn [negb].
+    destruct (Z.of_nat (s_len sl) =? Z.of_nat (s_len sw)) eqn:E2; [lia|]. reflexivity.
+Qed.
+
+Theorem GtEq_panics : forall h vl vw ls ws n,
+  int_slice h vl ls -> int_slice h vw ws -> ws <> [] -> length ls <> length ws ->
+  exists fuel, run go_funs fuel "GtEq" [vl; vw; VInt n] h = OPanic.
+Proof. intros. apply run_to_fuel. eapply GtEq_panic_run; eassumption. Qed.
